@@ -139,7 +139,13 @@ func scanReplay(args []string) *Result {
 		res.Cases++
 		res.count("spec-" + cs.Res)
 		if ok, what := compareScan(&cs, &o); !ok {
-			res.mismatch("scan:"+short(what), what, map[string]any{"kind": "scan", "case": cs, "text": string(b)})
+			sig := "scan:" + short(what)
+			if !selftest && behindBody(&cs, &o) {
+				// everything the two disagree about lies behind the last byte of a schema / enum body: there the
+				// dependency's Len() keeps reading (its own comment grammar) - recorded finding, own signature
+				sig = "scan:behind-a-body:" + short(what)
+			}
+			res.mismatch(sig, what, map[string]any{"kind": "scan", "case": cs, "text": string(b)})
 		}
 		for _, l := range o.Out {
 			if l.T == "K" && l.B >= 0 && l.E < len(b) && l.B <= l.E {
@@ -254,6 +260,42 @@ func eqLexModuloBodyTail(code, spec []lex, tape []byte) bool {
 		if !onlyTrivia(tape[s.E+1 : c.E+1]) {
 			return false
 		}
+	}
+	return true
+}
+
+// behindBody: the specification and the code agree on every lexeme in front of a body lexeme of the specification and
+// on where that body begins; whatever differs (extent of the body, later lexemes, the error) lies behind the body's
+// last byte as the specification sees it.
+func behindBody(cs *scanCase, o *scanObs) bool {
+	i := 0
+	for i < len(cs.Out) && i < len(o.Out) && cs.Out[i] == o.Out[i] {
+		i++
+	}
+	// the last body lexeme of the specification at or before the first difference
+	bi := -1
+	for k := 0; k < len(cs.Out) && k <= i; k++ {
+		if cs.Out[k].T == "S" || cs.Out[k].T == "E" {
+			bi = k
+		}
+	}
+	if bi < 0 {
+		return false
+	}
+	end := cs.Out[bi].E
+	if bi < len(o.Out) && (o.Out[bi].T != cs.Out[bi].T || o.Out[bi].B != cs.Out[bi].B || o.Out[bi].E < end) {
+		return false
+	}
+	depPanic := o.Res == "err" && o.Ei == cs.Out[bi].B && strings.Contains(o.Msg, "runtime error")
+	if bi >= len(o.Out) && !(o.Res == "err" && o.Ei > end) && !depPanic {
+		return false
+	}
+	if cs.Res == "err" && cs.Ei <= end {
+		return false
+	}
+	if o.Res == "err" && o.Ei <= end {
+		// (a panic of the dependency while it reads behind the body is recovered by Len() and reported at the body start)
+		return depPanic
 	}
 	return true
 }
